@@ -389,6 +389,15 @@ func anyOfMembers(tier string, cfg gen.Config) []member {
 			bs2 = append(bs2, branch(i))
 		}
 		out = append(out, member{name: fmt.Sprintf("anyOf property N=%d", n), cfg: cfg, root: &fam.Spec{Kind: "object", Props: []*fam.Prop{{Label: "u", Spec: &fam.Spec{Kind: "object", AnyOf: bs2}, Required: n%2 == 0}}}})
+		if n == 2 {
+			// an anyOf DEFINITION that two properties refer to (one type, generated once)
+			var bs3 []*fam.Spec
+			for i := 0; i < n; i++ {
+				bs3 = append(bs3, branch(i))
+			}
+			d := &fam.Spec{Kind: "object", AnyOf: bs3, Ref: "$defs"}
+			out = append(out, member{name: "anyOf definition referenced twice", cfg: cfg, root: &fam.Spec{Kind: "object", Props: []*fam.Prop{{Label: "u1", Spec: d, Required: true}, {Label: "u2", Spec: d}}}})
+		}
 	}
 	return out
 }
@@ -418,6 +427,7 @@ func broadMembers(tier string, cfg gen.Config) []member {
 	out = append(out, enumMembers(tier, cfg)...)
 	out = append(out, addPropsMembers(tier, cfg)...)
 	out = append(out, anyOfMembers(tier, cfg)...)
+	out = append(out, allOfMembers(cfg)...)
 	return out
 }
 
